@@ -78,7 +78,14 @@ struct Scenario {
             bool parsed = sf == "parsed" && !sources.empty(), compiled = ssf == "compiled" && !sheets.empty();
             const XalanParsedSource* ps = parsed ? sources[op.num("psi") % sources.size()] : nullptr;
             const XalanCompiledStylesheet* cs = compiled ? sheets[op.num("csi") % sheets.size()] : nullptr;
-            if (tf == "ostream") {
+            if (ssf == "pi") {
+                // the stylesheet comes from the xml-stylesheet processing instruction of the source document (resolved through the entity resolver)
+                std::string doc = docText(op.num("doc")); size_t q = doc.find("?>"); if (q != std::string::npos) doc.insert(q + 2, "\n<?xml-stylesheet type=\"text/xsl\" href=\"ss.xsl\"?>");
+                fs.put("ss.xsl", sheetText(op.num("sheet")));
+                SimIStream pis(doc, SrcFault()); XSLTInputSource pin(&pis, mm); pin.setSystemId(XalanDOMString((std::string(SIM_BASE) + "doc.xml").c_str(), mm).c_str());
+                if (tf == "ostream") { SinkOStream os(sink); XSLTResultTarget rt(&os, mm); o.status = T->transform(pin, rt); }
+                else o.status = T->transform(pin, &sink, sinkCallback, sinkFlushCallback);
+            } else if (tf == "ostream") {
                 SinkOStream os(sink); XSLTResultTarget rt(&os, mm);
                 if (parsed && compiled) o.status = T->transform(*ps, cs, rt);
                 else if (parsed) o.status = T->transform(*ps, sin, rt);
@@ -308,7 +315,7 @@ struct C19 : public Driver {
         // a not-well-formed document and a syntactically broken stylesheet: ordinary failures
         docs.push(d0.xml.substr(0, d0.xml.size() * 2 / 3));
         Json sheets = Json::array(); sheets.push(s0.xsl); sheets.push(s1.xsl);
-        { std::string bad = s0.xsl; size_t q = bad.find("select=\""); if (q != std::string::npos) bad.insert(q + 8, "((["); sheets.push(bad); }
+        { std::string bad = s0.xsl; size_t q = g.chance(1, 2) ? bad.find("select=\"") : bad.rfind("select=\""); if (q != std::string::npos) bad.insert(q + 8, "((["); sheets.push(bad); }      // the mistake comes early or late in the stylesheet
         p["docs"] = docs; p["sheets"] = sheets;
         Json res = Json::object(); for (auto& kv : s0.resources) res[kv.first] = kv.second; for (auto& kv : s1.resources) res[kv.first] = kv.second;
         p["resources"] = res;
@@ -325,7 +332,7 @@ struct C19 : public Driver {
             else if (r == 1) { Json& o = op("parse"); o["doc"] = (int)g.below(3); o["xerces"] = g.chance(1, 3); }
             else if (r <= 7) {
                 Json& o = op("transform"); o["doc"] = (int)(g.chance(1, 6) ? 2 : g.below(2)); o["sheet"] = (int)(g.chance(1, 6) ? 2 : g.below(2));
-                o["src"] = g.chance(1, 3) ? "parsed" : "stream"; o["ss"] = g.chance(1, 3) ? "compiled" : "stream"; o["target"] = g.chance(1, 3) ? "ostream" : "callback";
+                o["src"] = g.chance(1, 3) ? "parsed" : "stream"; o["ss"] = g.chance(1, 3) ? "compiled" : (g.chance(1, 5) ? "pi" : "stream"); o["target"] = g.chance(1, 3) ? "ostream" : "callback";
                 o["psi"] = (int)g.below(4); o["csi"] = (int)g.below(4);
             }
             else if (r == 8) { Json& o = op("destroy-ss"); o["i"] = (int)g.below(4); }
